@@ -45,6 +45,13 @@ def cost_inf(S, T, M, N, i, j):
 
 def sym_input(eng, name, dtype="float"):
     """a diagram as the caller stores it: float array (deaths may be +inf) or integer array (all finite)"""
+    if dtype in ("empty1d:dgm1", "empty1d:dgm2"):
+        if dtype.endswith(name):
+            # the empty diagram as `[]` / `np.array([])` arrives with shape (0,), not (0, 2); the specification reads it as no rows
+            a = Arr((0,), lambda idx: 0.0, dtype="float", origin="param:" + name)
+            a.as2d = Arr((0, 2), lambda idx: 0.0, dtype="float")
+            return a, 0
+        dtype = "float"
     n = eng.fresh_int("n_" + name, lo=0)
     a = fresh_symbolic(name, (n, 2), dtype=dtype, origin="param:" + name, finite=(dtype != "float"), eng=eng)
     return a, n
@@ -76,6 +83,7 @@ def make_cut_filter():
         out = []
         for nm, arg, var, cnt in (("dgm1", st.dgm1, "S", "M"), ("dgm2", st.dgm2, "T", "N")):
             X, c = st.env.lookup(var), st.env.lookup(cnt)
+            arg = getattr(arg, "as2d", arg)
             spec = arg[NP.isfinite(arg[:, 1]), :]      # D6 (canonical per mask)
             ns = spec.shape[0]
             any_fin = lift(ns) >= 1
@@ -83,7 +91,7 @@ def make_cut_filter():
             out.append(("%s_shape" % var, b_and(lift(X.shape[0]) == c, X.shape[1] == 2), FC))
             k = e.fresh_int("kf_" + var, lo=0, hi=c)
             for col in (0, 1):
-                want = ite(any_fin, e.under(zb(any_fin), lambda: spec.get(k, col)), 0.0)
+                want = 0.0 if (isinstance(ns, int) and ns == 0) else ite(any_fin, e.under(zb(any_fin), lambda: spec.get(k, col)), 0.0)
                 out.append(("%s_rows_are_finite_death_rows_col%d" % (var, col), lift(X.get(k, col)) == want, FC))
                 out.append(("%s_entries_finite_col%d" % (var, col), lift(X.get(k, col)).finite(), FC))
             dropped = b_and(lift(arg.shape[0]) > 0, lift(ns) < arg.shape[0])
@@ -371,5 +379,7 @@ def hk_hook(e, graph):
 
 
 def all_contracts(tier):
-    cs = [bottleneck_contract(False), bottleneck_contract(True), bottleneck_contract(False, "int")]
+    cs = [bottleneck_contract(False), bottleneck_contract(True), bottleneck_contract(False, "int"),
+          # an empty diagram handed over as [] / np.array([]) (shape (0,)) on either side
+          bottleneck_contract(False, "empty1d:dgm1"), bottleneck_contract(True, "empty1d:dgm2")]
     return cs, {}
